@@ -24,14 +24,22 @@ Qed.
 
 (* on the file handle model (Model/FileIO.v, tied to adf_file.c by the call-level correspondence): WHATEVER set of blocks the device
    refuses to read (`bad`, arbitrary), a read call on a coherent handle returns m <= min(n, size - pos) bytes and they are exactly
-   the file's true bytes from the position on - fewer bytes, never wrong ones.  (Proved for failing READS of data and extension
+   the file's true bytes from the position on - fewer bytes, never wrong ones; the position moves by exactly m.  (Proved for failing READS of data and extension
    blocks during adfFileRead / adfFileReadNextBlock; failing writes and the seek paths under faults are decided by enumeration.) *)
 Theorem C19_read_returns_only_true_bytes_partial : forall bs ofs key, 0 < bs -> forall (bad : Z -> bool) s L E ct n,
   Inv bs ofs key s L E -> Repr bs s L ct -> 0 <= n ->
   exists s' r m, fio_read bs ofs bad s n = (s', r) /\ 0 <= m <= Z.max 0 (Z.min n (fsize s - pos s)) /\
-    r = firstn (Z.to_nat m) (skipn (Z.to_nat (pos s)) ct) /\ len r = m.
+    r = firstn (Z.to_nat m) (skipn (Z.to_nat (pos s)) ct) /\ len r = m
+    /\ pos s' = pos s + m /\ FileIOFr.Fr (key :: L ++ E) s s'.
 Proof. exact fio_read_faulty. Qed.
+
+(* ... the position advances by exactly the bytes returned, and whatever fails, nothing outside the file's own blocks changes (the two last
+   conjuncts above); the same for a seek under an arbitrary set of unreadable blocks, failed or not: *)
+Theorem C19_seek_under_faults_touches_only_own_blocks : forall bs ofs key (bad : Z -> bool) s L E p, Inv bs ofs key s L E ->
+  FileIOFr.Fr (key :: L ++ E) s (snd (fio_seek bs ofs bad s p)).
+Proof. intros bs ofs key bad s L E p I. apply FileIOFr.fio_seek_fr. exact (inv_own bs ofs key s L E I). Qed.
 
 Print Assumptions C19_containment_under_any_faults.
 Print Assumptions C19_read_returns_only_true_bytes_partial.
 Print Assumptions C19_refusal_is_an_error.
+Print Assumptions C19_seek_under_faults_touches_only_own_blocks.
